@@ -502,7 +502,7 @@ class Syntax(JupyterMixin):
             yield from console.render(text, options=options.update(width=code_width))
             return
 
-        lines = text.split("\n")
+        lines = text.split("\n", allow_blank=bool(self.line_range))
         if self.line_range:
             lines = lines[line_offset:end_line]
 
@@ -512,12 +512,14 @@ class Syntax(JupyterMixin):
                 + self._theme.get_style_for_token(Comment)
                 + Style(dim=True)
             )
-            lines = (
+            guide_lines = (
                 Text("\n")
                 .join(lines)
                 .with_indent_guides(self.tab_size, style=style)
-                .split("\n")
+                .split("\n", allow_blank=True)
             )
+            # blank lines at the end get no guides (and are dropped by the above)
+            lines = guide_lines[: len(lines)] + lines[len(guide_lines) :]
 
         numbers_column_width = self._numbers_column_width
         render_options = options.update(width=code_width)
